@@ -131,6 +131,8 @@ def config_st(draw, dmax=5, tmin=2, tmax=12, modes=('exact', 'float'), multi=Tru
     if variants:
         # observations stored through the public update_storage() BEFORE the first explain_one (pre-filled / shared storage)
         cfg['prefill'] = draw(st.sampled_from([0, 0, 0, 1, 2]))
+        if cfg['prefill'] and cfg['stream'] and draw(st.booleans()):
+            cfg['stream'][0]['upd'] = False      # the storage is fed by hand / by someone else: even the first call does not store
         cfg['defaults_container'] = draw(st.sampled_from(['dict', 'dict', 'defaultdict', 'missing']))
         if draw(st.integers(0, 7)) == 0:
             cfg['alpha'] = draw(st.sampled_from(['1/10000000000', '1/1000000']))     # very small but legal smoothing parameter
